@@ -53,11 +53,15 @@ var urlTable = []string{
 	"http://c",             // 8  key 5
 	"http://d/p?x=1&y=2",   // 9  key 6
 	"http://sa",            // 10 key 7 ("http"+"sa" reads like "https"+"a": a different scheme AND host than id 4)
-	"http://evil/x",        // 11 key 8  (only written by scribblers / unknown removes)
-	"ftp://evil2:21/",      // 12 key 9
+	"http://e:80",          // 11 key 8  one host on the two well-known ports and without a port: three servers
+	"http://e:443",         // 12 key 9
+	"http://e",             // 13 key 10
+	"http://evil/x",        // 14 key 11 (only written by scribblers / unknown removes)
+	"ftp://evil2:21/",      // 15 key 12
 }
 
-const nServerURLs = 11 // ids < nServerURLs are used as servers
+const nServerURLs = 14 // ids < nServerURLs are used as servers
+const firstForeignURL = 14
 
 type interner struct {
 	keys map[string]int64
@@ -292,7 +296,7 @@ func (c *rrComp) Gen(rng *rand.Rand, idx int, tier string, targeted bool) hlib.H
 		}
 		id := int64(rng.Intn(len(urlTable)))
 		if rng.Intn(2) == 0 {
-			id = 11 + int64(rng.Intn(2))
+			id = firstForeignURL + int64(rng.Intn(2))
 		}
 		emit(6, int64(hh), tableKeys[id], id)
 	}
@@ -351,7 +355,7 @@ func (c *rrComp) Gen(rng *rand.Rand, idx int, tier string, targeted bool) hlib.H
 				emit(8, k, ref.id[k], w1, -1)
 			}
 			if rng.Intn(60) == 0 { // failing administration calls in the middle of a window must change nothing
-				id := int64(11 + rng.Intn(2))
+				id := int64(firstForeignURL + rng.Intn(2))
 				emit(1, tableKeys[id], id)
 			}
 		}
